@@ -525,6 +525,9 @@ pub fn ignore_worker(ctx: &mut Ctx) {
 
 pub fn dict_worker(ctx: &mut Ctx) {
     use harper_core::{Dictionary, FstDictionary};
+    // the same observations decide C15 (the merged view is the union of its parts) and C07 (a word the user added
+    // is accepted from then on and never lost): `--opt prop=` says under which property findings are reported
+    let prop = ctx.opts.get("prop").cloned().unwrap_or_else(|| "C15".to_string());
     let fst = FstDictionary::curated();
     let mut all: Vec<String> = fst.words_iter().map(|w| w.iter().collect::<String>()).collect();
     all.sort();
@@ -592,7 +595,7 @@ pub fn dict_worker(ctx: &mut Ctx) {
             Err(p) => ctx.report.finding("C01", &format!("panic@wasm.import/{}", p.sig()), imported.len(), wit, || p.msg.clone()),
             Ok(out) => {
                 for (sig, detail) in out {
-                    ctx.report.finding("C15", &sig, imported.len(), wit, || detail.clone());
+                    ctx.report.finding(&prop, &sig, imported.len(), wit, || detail.clone());
                 }
             }
         }
